@@ -202,7 +202,9 @@ func (p *Parser) parseDeclarationList() GrammarType {
 	}
 
 	// IE hack: *color:red;
+	hackPos := -1
 	if p.tt == DelimToken && p.data[0] == '*' {
+		hackPos = p.l.r.Offset() - len(p.data) // whitespace and comments may follow the asterisk
 		if tt, data := p.popToken(false); tt != ErrorToken {
 			p.tt = tt
 			p.data = append(p.data, data...)
@@ -224,6 +226,9 @@ func (p *Parser) parseDeclarationList() GrammarType {
 	p.l.r.Move(-len(p.data))
 	p.err, p.errPos = fmt.Sprintf("unexpected token '%s' in declaration", string(p.data)), p.l.r.Offset()
 	p.l.r.Move(len(p.data))
+	if hackPos != -1 {
+		p.errPos = hackPos
+	}
 
 	if p.tt == RightBraceToken {
 		// right brace token will occur when we've had a decl error that ended in a right brace token
